@@ -27,6 +27,7 @@ type ReadSched struct {
 	ZeroReads   map[int]int `json:"zero_reads,omitempty"`      // offset -> number of (0,nil) reads before data at that offset
 	ZeroEvery   int         `json:"zero_every,omitempty"`      // k>0: one (0,nil) read before every k-th byte offset (a slow but progressing reader)
 	ErrAt       int         `json:"error_at"`                  // -1: none; else (0,errSim) once pos reaches it (sticky)
+	ErrKind     int         `json:"error_kind,omitempty"`      // 0 a plain I/O error, 1 io.ErrUnexpectedEOF (truncated gzip, short HTTP body), 2 io.ErrClosedPipe
 	ErrWithData bool        `json:"error_with_data,omitempty"` // the read that reaches ErrAt returns its bytes TOGETHER with the error (then the error alone, sticky)
 	CutAt       int         `json:"cut_at"`                    // -1: none; else the stream ends (EOF) at this offset
 }
@@ -54,6 +55,9 @@ func (s *ReadSched) String() string {
 	}
 	if s.ErrWithData {
 		zr += " errWithData"
+	}
+	if s.ErrKind > 0 {
+		zr += []string{"", " err=io.ErrUnexpectedEOF", " err=io.ErrClosedPipe"}[s.ErrKind]
 	}
 	return fmt.Sprintf("br=%v chunk=%d eofWithData=%v err@%d cut@%d%s", s.ByteReader, s.Chunk, s.EOFWithData, s.ErrAt, s.CutAt, zr)
 }
@@ -105,6 +109,7 @@ func DrawReadSched(t *Tape, L int, faults bool) *ReadSched {
 		case 1:
 			s.ErrAt = t.Draw(L + 1)
 			s.ErrWithData = t.Draw(3) == 2
+			s.ErrKind = t.Small(3)
 		case 2:
 			s.CutAt = t.Draw(L + 1)
 		}
@@ -131,6 +136,17 @@ type SimReader struct {
 	EOFWithDataDelivered bool
 	ErrDelivered         bool
 	CutDelivered         bool
+}
+
+// injected returns the error value of the schedule.
+func (s *ReadSched) injected() error {
+	switch s.ErrKind {
+	case 1:
+		return io.ErrUnexpectedEOF
+	case 2:
+		return io.ErrClosedPipe
+	}
+	return errSim
 }
 
 func NewSimReader(c *Ctx, name string, data []byte, s *ReadSched) *SimReader {
@@ -164,7 +180,7 @@ func (r *SimReader) Read(p []byte) (n int, err error) {
 	if r.s.ErrAt >= 0 && r.pos >= r.s.ErrAt && r.s.ErrAt <= r.end {
 		r.ErrDelivered = true
 		r.errSent = true
-		return 0, errSim
+		return 0, r.s.injected()
 	}
 	// never 100 empty reads in a row: that is where bufio - and mxj's adaptors - legitimately
 	// give up with io.ErrNoProgress
@@ -215,7 +231,7 @@ func (r *SimReader) Read(p []byte) (n int, err error) {
 		r.ErrDelivered = true
 		r.errSent = true
 		r.c.C["fault.read_error_with_data"]++
-		return k, errSim
+		return k, r.s.injected()
 	}
 	if r.pos == r.end && r.s.EOFWithData && !(r.s.ErrAt >= 0 && r.s.ErrAt <= r.end) {
 		r.EOFWithDataDelivered = true
